@@ -1,5 +1,15 @@
 """Per-property configuration for /verif/check."""
 
+ROUTING_RULE = ("traces of routing-mode ops (opensrc/opentgt/batch/ack/gate/breaktgt/breaksrc) generated online against the real "
+                "adminServiceProxyServer + proxyStreamSender/Receiver + shardManagerImpl inside a testing/synctest bubble (fake gRPC streams, virtual time), "
+                "one op = one environment action run to quiescence + 1.3 s virtual sleep; 1-3 source shards x 1-4 target shards, owners by the real hash; "
+                "every op's emitted messages (proxy id:original id/high), upstream acks and channel lengths are compared with the Lean model's big-step run; "
+                "the observed per-target enqueue order is passed to the model as a scheduling hint. A trace is non-trivial when it has more than 6 ops; distinct by op list.")
+ROUTING_ASSUMPTIONS = ["TemporalSourceWF (EnvOK): per source stream task ids strictly increase, ids >= previous exclusive high, high > ids, highs non-decreasing (Temporal v1.31.2 stream_sender.go)",
+                       "single proxy instance (memberlist off); the intra-proxy hop is C09",
+                       "fakes: cancelling a stream context makes Recv fail; the source answers CloseSend with EOF (GrpcStreamEnv)",
+                       "keep-alive re-sends are recognised (empty message with unchanged high during the sleep window / repeated ack value) and checked for idempotence, not modelled step by step"]
+
 PROPS = {
     "C05": dict(
         engine="TestC05",
@@ -33,5 +43,26 @@ PROPS = {
              "[1,1024] or malformed; distinct by (mode,metadata).",
         assumptions=["the handler body (forwarder / routing workers) is modelled as 'served' once entered; its own behaviour is C06/C01-C04",
                      "log.CapturePanic converts a panic in the handler goroutine into a returned error (temporal server v1.31.2)"],
+    ),
+    "C02": dict(
+        engine="TestC02",
+        lean_modules=["S2S.Props.C02"],
+        required_theorems=["C02_delivery_prefix", "C02_delivery_complete", "C02_sent_ids_distinct", "C02_stream_wellformed", "C02_payload_positions"],
+        rule=ROUTING_RULE + " Focus C02: targets that connect after tasks for them arrived (retry loop), several sources feeding one target, "
+             "multi/single/empty batches, replayed watermarks; monitor: once-only delivery to the owner computed with the real farmhash, payload "
+             "proto.Equal modulo id fields, per-stream id/high well-formedness.",
+        assumptions=ROUTING_ASSUMPTIONS,
+        timeout={"quick": 1200, "thorough": 7200},
+    ),
+    "C19": dict(
+        engine="TestC19",
+        lean_modules=["S2S.Props.C19"],
+        required_theorems=["C19_server_admits_only_ca_peers", "C19_client_admits_only_ca_servers", "C19_bad_ca_bundle_fails_closed", "C19_only_skip_relaxes", "C19_refuted_before_fix"],
+        rule="full cross product: 32 configurations (own cert x server name x CA file good/no-CA-cert/unreadable/unset x skip) x 7 peer credentials "
+             "(valid chain, wrong name, self-signed, other CA, expired, wrong usage, none; the client always sends its certificate) x both roles, "
+             "assembled tls.Config fields compared with the model and admission decided by real crypto/tls handshakes (net.Pipe), plus the real TCP "
+             "(ClusterConnection inbound server) and mux (NewMuxReceiverProvider) listeners for every credential. Every case is distinct and non-trivial.",
+        assumptions=["X.509 path validation (crypto/x509) is an abstract verdict per credential class; crypto/tls admission per ClientAuth mode is a decision "
+                     "model validated by the handshakes of this run", "client role without a CA file falls back to the host's system roots (documented behaviour, modelled as 'not the configured CA')"],
     ),
 }
